@@ -46,7 +46,7 @@ Lemma parse_start_states_iw_off : forall pe fx b st off re,
   parse_start_states pe false (with_iw b fx) st off re = parse_start_states pe false fx st off re.
 Proof.
   intros pe fx b st off re. unfold parse_start_states.
-  cbn [with_iw fix_dangling fix_iw fix_prefix_unescape fix_esc_table]. rewrite !andb_false_r. reflexivity.
+  cbn [with_iw fix_dangling fix_iw fix_prefix_unescape fix_esc_table fix_esc_octal]. rewrite !andb_false_r. reflexivity.
 Qed.
 
 Lemma parse_name_iw : forall fx b i rspace name_off orig_name,
